@@ -246,6 +246,18 @@ pub fn monitor(trace: &Trace, horizon: u64, l: &mut Local) {
                 if cache_only && tx.t == t_end && stop_iter.is_some_and(|si| tx.iter < si) {
                     continue;
                 }
+                // while a cache-only browse of the same type is open the query is that search's business (judged by T6 there)
+                if !cache_only
+                    && chans.iter().any(|c| {
+                        c.host == host
+                            && matches!((&c.kind, &ci.kind), (Kind::BrowseCache(a), Kind::Browse(b)) if a == b)
+                            && c.t_start <= tx.t
+                            && c.idx > end_idx
+                            && ended_by_api(trace, c).is_none_or(|(t, _)| t >= tx.t)
+                    })
+                {
+                    continue;
+                }
                 if qtypes.iter().any(|qt| scen::has_question(tx.msg, &name, *qt)) {
                     let (rule, sig) = if cache_only {
                         // what made the daemon ask? a refresh mark of a cached PTR of that type, a new
